@@ -165,13 +165,13 @@ PROPS['C16'] = {
     'modules': ['MinterProofs.Props.C16'],
     'theorems': ['Minter.frozen_released_only_when_due', 'Minter.not_due_survives', 'Minter.no_evidence_funds_untouched',
                  'Minter.balances_only_matured', 'Minter.balance_unchanged_without_due_fund', 'Minter.due_fund_is_paid',
-                 'Minter.move_never_to_balance', 'Minter.unbond_to_balance', 'Minter.move_needs_existing_target', 'Minter.moves_reach_target',
+                 'Minter.move_never_to_balance', 'Minter.unbond_to_balance', 'Minter.move_to_missing_target_unbonds', 'Minter.moves_reach_target',
                  'Minter.leave_creates_frozen', 'Minter.removal_funds_due', 'Minter.unbond_due', 'Minter.locked_cannot_unbond',
                  'Minter.move_due_and_target_exists', 'Minter.move_to_unknown_rejected', 'Minter.lock_due'],
-    'campaigns': [camp('staking', 16, 200), camp('begin', 8, 60), camp('ledger', 8, 100)],
+    'campaigns': [camp('staking', 16, 200), camp('begin', 8, 60), camp('ledger', 8, 100), camp('prune', 4, 24)],   # prune: 104 candidates, moves in flight towards candidates that get pruned
     'mismatch_counts': True,
     'assumptions': BEGIN_ASSUMPTIONS,
-    'claim_draft': "Lean theorems about the BeginBlock model (MinterModel/BeginBlock.lean: absences, byzantine punishment, maturity of frozen funds, in the order of Blockchain.BeginBlock) and the fund-creating side of Unbond/MoveStake/Lock/candidate removal, for all states, requests and oracle answers: after BeginBlock at h the frozen funds are the old ones (every field unchanged except a value cut once per matching punishment) plus remainder funds all due h+unbond, minus exactly the funds stored under h; no fund with another height is released and nothing returns earlier (frozen_released_only_when_due, not_due_survives, no_evidence_funds_untouched, due_fund_is_paid); per (owner, coin) the balance grows by exactly the owner's non-move funds stored under h and is unchanged without one (balances_only_matured, balance_unchanged_without_due_fund, unbond_to_balance); a matured move never reaches a balance but the updates of its target candidate with bip 0, and a missing target never yields a result (move_never_to_balance, moves_reach_target, move_needs_existing_target); funds are created due exactly at h+unbond (punishment remainder, candidate removal, Unbond), block+move (MoveStake, target must be an existing candidate, else code 403) and DueBlock (Lock); a locked stake cannot be unbonded (416) (leave_creates_frozen, removal_funds_due, unbond_due, move_due_and_target_exists, move_to_unknown_rejected, lock_due, locked_cannot_unbond). Tie: on every S begin the driver runs beginBlock on the node's live state before the block (votes and evidence as sent, grace recomputed from the start height and the version heights) and compares balances, frozen funds, stakes, pending updates, candidates, validators and pools with the node's live projection after it (MISMATCH C16/C18 begin ...); stakingTxMonitor ties the tx-side functions to every delivered Unbond/MoveStake/Lock/SetCandidateOn (accepted => the predicted fund is new; model rejects => node rejected; same code for 416/417/123/414); campaigns staking, begin (112 warm-up blocks so that the generated blocks straddle the end of the initial grace period, duplicated evidence) and ledger. STALE since /repo 0ed8cf3 (F9 fix, made after this model was written): a matured move whose target candidate no longer exists is now re-frozen as an unbond due h+unbond instead of panicking; the model still predicts the panic (move_needs_existing_target), the driver reports that case as 'MISMATCH C16 begin ... model-predicts-panic ... go=continued' (not hit by the quick campaigns); matureOne and the statements frozen_released_only_when_due / not_due_survives / no_evidence_funds_untouched / due_fund_is_paid / move_needs_existing_target have to follow the new code before this is registered. Partial: the tx-side functions model only the C16-relevant validations (stake/waitlist sufficiency and commission belong to the transaction model); reward/price update, max gas and events are not in the BeginBlock model.",
+    'claim_draft': "Lean theorems about the BeginBlock model (MinterModel/BeginBlock.lean: absences, byzantine punishment, maturity of frozen funds, in the order of Blockchain.BeginBlock) and the fund-creating side of Unbond/MoveStake/Lock/candidate removal, for all states, requests and oracle answers: after BeginBlock at h the frozen funds are the old ones (every field unchanged except a value cut once per matching punishment) plus remainder funds all due h+unbond, minus exactly the funds stored under h; no fund with another height is released and nothing returns earlier (frozen_released_only_when_due, not_due_survives, no_evidence_funds_untouched, due_fund_is_paid); per (owner, coin) the balance grows by exactly the owner's non-move funds stored under h and is unchanged without one (balances_only_matured, balance_unchanged_without_due_fund, unbond_to_balance); a matured move is appended (bip value 0) to the updates of its target candidate and never credited to a balance; when the target candidate has been removed while the move was in flight (/repo 0ed8cf3; before it BeginBlock dereferenced the missing candidate = F9) the coins are re-frozen as an unbond of the same owner, coin, value and origin due exactly one further unbond period later, so they still never return earlier than scheduled and reach the balance only as an unbond (move_never_to_balance, moves_reach_target, move_to_missing_target_unbonds; the block-level statements hold for the real, positive unbond period: hypothesis 0 < unbond); funds are created due exactly at h+unbond (punishment remainder, candidate removal, Unbond), block+move (MoveStake, target must be an existing candidate, else code 403) and DueBlock (Lock); a locked stake cannot be unbonded (416) (leave_creates_frozen, removal_funds_due, unbond_due, move_due_and_target_exists, move_to_unknown_rejected, lock_due, locked_cannot_unbond). Tie: on every S begin the driver runs beginBlock on the node's live state before the block (votes and evidence as sent, grace recomputed from the start height and the version heights) and compares balances, frozen funds, stakes, pending updates, candidates, validators and pools with the node's live projection after it (MISMATCH C16/C18 begin ...); stakingTxMonitor ties the tx-side functions to every delivered Unbond/MoveStake/Lock/SetCandidateOn (accepted => the predicted fund is new; model rejects => node rejected; same code for 416/417/123/414); campaigns staking, begin (112 warm-up blocks so that the generated blocks straddle the end of the initial grace period, duplicated evidence), ledger and prune (104 candidates with stake moves in flight towards the candidates the first recalculation removes: the re-freeze branch is hit about 15-24 times per campaign). Partial: the tx-side functions model only the C16-relevant validations (stake/waitlist sufficiency and commission belong to the transaction model); reward/price update, max gas and events are not in the BeginBlock model.",
 }
 PROPS['C18'] = {
     'level': 'proof', 'registered': False,
